@@ -259,6 +259,39 @@ def sc_merge_vs_reader(fs: Any):
     return [writer, reader], check
 
 
+def sc_merge_vs_merge(fs: Any):
+    conns = [fs.connect("db1", "s1") for _ in range(2)]
+    c0 = conns[0].cursor()
+    res: list[Any] = [None, None]
+    for i in range(2):
+        c0.execute(f"CREATE TABLE TGT{i} (K INT, V VARCHAR)")
+        c0.execute(f"INSERT INTO TGT{i} VALUES (1, 'old'), (2, 'old'), (3, 'old')")
+        c0.execute(f"CREATE TABLE SRC{i} (K INT, V VARCHAR)")
+    c0.execute("INSERT INTO SRC0 VALUES (1, 'upd'), (3, 'del'), (9, 'ins')")
+    c0.execute("INSERT INTO SRC1 VALUES (2, 'upd'), (7, 'ins'), (8, 'ins'), (6, 'ins')")
+    want = [([(1, "upd"), (2, "old"), (9, "ins")], (1, 1, 1)), ([(1, "old"), (2, "upd"), (3, "old"), (6, "ins"), (7, "ins"), (8, "ins")], (3, 1, 0))]
+
+    def body(i: int) -> Callable[[], None]:
+        def f() -> None:
+            cur = conns[i].cursor()
+            cur.execute(f"MERGE INTO TGT{i} t USING SRC{i} s ON t.K = s.K WHEN MATCHED AND s.V = 'del' THEN DELETE "
+                        "WHEN MATCHED THEN UPDATE SET V = s.V WHEN NOT MATCHED THEN INSERT (K, V) VALUES (s.K, s.V)")
+            res[i] = tuple(int(x) for x in cur.fetchall()[0])
+        return f
+
+    def check(env: core.Env, sched: Sched, name: str) -> None:
+        for i in range(2):
+            if sched.errors[i] is not None:
+                continue
+            env.count("cmp_final_state")
+            got = sorted(core.raw_root(fs).cursor().execute(f"select K, V from DB1.S1.TGT{i}").fetchall())
+            if got != want[i][0]:
+                env.witness(f"C19/{name}/target-has-other-sessions-rows", f"TGT{i} = {got} expected {want[i][0]} trace={sched.trace}")
+            elif res[i] != want[i][1]:
+                env.witness(f"C19/{name}/counts-from-other-session", f"session {i} counts {res[i]} expected {want[i][1]} trace={sched.trace}")
+    return [body(0), body(1)], check
+
+
 def sc_own_tables(fs: Any, k: int = 3):
     conns = [fs.connect("db1", "s1") for _ in range(k)]
 
@@ -287,22 +320,24 @@ SCENARIOS: dict[str, Callable] = {
     "inserts-shared-table-x3": lambda fs: sc_inserts(fs, 3),
     "create-table-vs-metadata-reader": sc_create_vs_reader,
     "merge-vs-reader": sc_merge_vs_reader,
+    "merge-vs-merge": sc_merge_vs_merge,
     "own-tables-x3": sc_own_tables,
 }
 
 
 def gen_cases(tier: str, seed: int):
     r = random.Random(f"{seed}:C19")
-    for name in SCENARIOS:
-        # chunks of the plan space: (scenario, chunk index); plans are enumerated inside the case from the baseline length
-        nchunks = 6 if tier == "quick" else 24
-        for ch in range(nchunks):
-            yield {"kind": "sched", "scenario": name, "chunk": ch, "nchunks": nchunks, "maxp": 2 if tier == "quick" else 3,
-                   "cap": 55 if tier == "quick" else 900, "seed": r.randrange(1 << 30)}
-    for i in range(24 if tier == "quick" else 600):
-        yield {"kind": "stress", "threads": r.choice([8, 12, 16]), "seed": r.randrange(1 << 30)}
+    # the few slow layer-2/3 cases first, so that a time budget only ever trims the schedule enumeration
     for i in range(6 if tier == "quick" else 60):
         yield {"kind": "server", "clients": r.choice([6, 10]), "seed": r.randrange(1 << 30)}
+    for i in range(20 if tier == "quick" else 600):
+        yield {"kind": "stress", "threads": r.choice([8, 12, 16]), "seed": r.randrange(1 << 30)}
+    nchunks = 6 if tier == "quick" else 24
+    for ch in range(nchunks):
+        for name in SCENARIOS:
+            # chunks of the plan space: (scenario, chunk index); plans are enumerated inside the case from the baseline length
+            yield {"kind": "sched", "scenario": name, "chunk": ch, "nchunks": nchunks, "maxp": 2 if tier == "quick" else 3,
+                   "cap": 40 if tier == "quick" else 900, "seed": r.randrange(1 << 30)}
 
 
 def _run_schedule(env: core.Env, name: str, plan: list[tuple[int, int]]) -> tuple[list[int], int]:
